@@ -63,6 +63,15 @@ def _alarm(signum, frame):
     raise CaseTimeout()
 
 
+def _raised_in_harness(e):
+    tb = e.__traceback__
+    last = None
+    while tb is not None:
+        last = tb.tb_frame.f_code.co_filename
+        tb = tb.tb_next
+    return bool(last) and last.startswith(os.path.join(VERIF, "sim"))
+
+
 def exec_case(check, case, timeout):
     """Run one case with a wall-clock guard.  Returns the result dict."""
     old = signal.signal(signal.SIGALRM, _alarm)
@@ -76,8 +85,13 @@ def exec_case(check, case, timeout):
     except CaseTimeout:
         res = {"outcome": "skip", "reason": "wall-timeout"}
     except Exception as e:   # harness error, never a violation
-        res = {"outcome": "harness-error", "reason": "%s: %s" % (type(e).__name__, e),
-               "trace": traceback.format_exc()[-3000:]}
+        if isinstance(e, (AttributeError, ImportError)) and _raised_in_harness(e):
+            # the harness reached for a private name of the library that is not there (any more): this run cannot be
+            # judged.  That is neither a violation nor a pass; it is counted, and reported loudly by main().
+            res = {"outcome": "skip", "reason": "instrumentation-missing:%s" % str(e)[:80]}
+        else:
+            res = {"outcome": "harness-error", "reason": "%s: %s" % (type(e).__name__, e),
+                   "trace": traceback.format_exc()[-3000:]}
     except BaseException as e:   # noqa
         if type(e).__name__ in ("InnerTimeout", "HarnessCap", "LineCap"):
             res = {"outcome": "skip", "reason": "cap:" + type(e).__name__}
@@ -422,7 +436,12 @@ def main(argv=None):
     tier = args.tier
     if tier not in ("quick", "thorough"):
         tier = "quick"
-    check = load_check(prop)
+    try:
+        check = load_check(prop)
+    except Exception as e:   # noqa
+        print("HARNESS-ERROR cannot load check %s: %s: %s" % (prop, type(e).__name__, e))
+        traceback.print_exc()
+        return 2
     if args.replay:
         return replay(prop, args.replay)
     timeout = getattr(check, "CASE_TIMEOUT", {"quick": 20, "thorough": 60})[tier]
@@ -595,6 +614,12 @@ def main(argv=None):
         except Exception as e:
             harness_errors.append("determinism self-test failed to run: %r" % (e,))
 
+    n_missing = sum(v for k, v in skip_hist.items() if k.startswith("instrumentation-missing"))
+    inconclusive_note = None
+    if n_missing:
+        inconclusive_note = ("NOTE: %d of %d runs could not be judged because the harness did not find a private name of the "
+                             "library it instruments (%s); those runs are skips, not passes" % (
+                                 n_missing, len(results), sorted(k for k in skip_hist if k.startswith("instrumentation-missing"))[:3]))
     n_timeouts = skip_hist.get("wall-timeout", 0)
     total = len(results)
     if total and n_timeouts > max(5, 0.1 * total):
@@ -624,6 +649,7 @@ def main(argv=None):
             "fault_kinds_fired": fault_fired,
             "counters": counters,
             "known_findings_seen": known_seen,
+            "instrumentation_missing_runs": n_missing,
             "stale_known_findings": stale,
             "components_real": COMPONENTS_REAL, "components_stub": COMPONENTS_STUB,
             "determinism_selftest": selftest,
@@ -646,6 +672,8 @@ def main(argv=None):
         print("faults fired:", json.dumps(fault_fired, sort_keys=True))
         print("counters:", json.dumps({k: v for k, v in counters.items() if not k.startswith("fault@")}, sort_keys=True))
         print("skips:", json.dumps(skip_hist, sort_keys=True))
+    if inconclusive_note:
+        print(inconclusive_note)
     for l in known_lines:
         print(l)
     for fid in stale:
